@@ -510,7 +510,125 @@ func maxInt(a, b int) int {
 	return b
 }
 
+// a client-side PostCall plugin that parks the call whose argument is armed (it has failed and is about to clean up)
+type parkPostCall struct {
+	mu      sync.Mutex
+	armed   int
+	entered chan struct{}
+	release chan struct{}
+}
+
+func (p *parkPostCall) PostCall(ctx context.Context, sp, sm string, args interface{}, reply interface{}, err error) error {
+	n, _ := args.(int)
+	p.mu.Lock()
+	hit := p.armed != 0 && n == p.armed
+	if hit {
+		p.armed = 0
+	}
+	p.mu.Unlock()
+	if hit {
+		close(p.entered)
+		<-p.release
+	}
+	return err
+}
+
+// c10LateCleanup: a call fails on a connection that is then lost; before it gets to clean up after itself another call
+// has already replaced the dead cached connection with a fresh one and is waiting for its answer on it.  The late
+// clean-up concerns the connection that failed, not whatever is cached now: the other call is answered.
+// Oracle only.  case: late|<mode>
+func c10LateCleanup(o *common.Out, id, mode string) {
+	abstract := "late|" + mode
+	o.Begin(id, abstract)
+	o.Count("late-cleanup-of-a-replaced-connection")
+	uid := atomic.AddInt64(&c10seq, 1)
+	addr := fmt.Sprintf("c10late-%d", uid)
+	ctrl := &bkCtrl{ev: make(chan bkEvent, 16)}
+	log := &attemptLog{}
+	fs := &fakeServer{id: 0, dials: []bool{true, true, true}, calls: []string{"lost", "ok7", "ok8"}, log: log, ctrl: ctrl}
+	registerFake(addr, fs)
+	defer unregisterFake(addr)
+	d, _ := client.NewMultipleServersDiscovery([]*client.KVPair{{Key: "vsrv@" + addr}})
+	opt := client.DefaultOption
+	opt.Retries = 0
+	opt.SerializeType = protocol.JSON
+	opt.Heartbeat = false
+	fm := map[string]client.FailMode{"fast": client.Failfast, "try": client.Failtry, "over": client.Failover}[mode]
+	xc := client.NewXClient("Svc", fm, client.RoundRobin, d, opt)
+	defer xc.Close()
+	pp := &parkPostCall{armed: 41, entered: make(chan struct{}), release: make(chan struct{})}
+	pc := client.NewPluginContainer()
+	pc.Add(pp)
+	xc.SetPlugins(pc)
+	call := func(arg int, out chan string) {
+		var reply int
+		ctx, cancel := context.WithTimeout(context.Background(), 4*time.Second)
+		defer cancel()
+		if err := xc.Call(ctx, "M", arg, &reply); err != nil {
+			out <- c10ErrClass(err)
+		} else {
+			out <- "ok:" + strconv.Itoa(reply)
+		}
+	}
+	arrive := func(what string) (bkEvent, bool) {
+		for {
+			select {
+			case e := <-ctrl.ev:
+				if e.kind == "arrive" {
+					return e, true
+				}
+			case <-time.After(3 * time.Second):
+				o.Fail(id, "rig", what+" never arrived at the server", abstract)
+				return bkEvent{}, false
+			}
+		}
+	}
+	rb, rc := make(chan string, 1), make(chan string, 1)
+	go call(41, rb) // B: its connection is lost while it waits
+	eb, ok := arrive("call B")
+	if !ok {
+		return
+	}
+	close(eb.rel) // the server drops the connection
+	select {
+	case <-pp.entered: // B has failed and stands right before its clean-up
+	case <-time.After(3 * time.Second):
+		o.Fail(id, "rig", "call B never returned from the lost connection", abstract)
+		close(pp.release)
+		return
+	}
+	go call(42, rc) // C: replaces the dead connection, its request waits at the server
+	ec, ok := arrive("call C")
+	if !ok {
+		close(pp.release)
+		return
+	}
+	close(pp.release) // B cleans up now
+	resB := <-rb
+	time.Sleep(2 * time.Millisecond)
+	close(ec.rel) // the server answers C
+	var resC string
+	select {
+	case resC = <-rc:
+	case <-time.After(5 * time.Second):
+		resC = "hang"
+	}
+	if resC != "ok:7" {
+		o.Fail(id, "untruthful-result", fmt.Sprintf("call C was sent on a fresh connection and answered 7 by the server; it returned %q (call B, whose own connection had been lost earlier, returned %q and cleaned up in between)", resC, resB), abstract)
+	}
+	o.ImplOnly(id, abstract, true)
+}
+
 func runC10(r *common.Rand, tier string, o *common.Out, replay string) {
+	if strings.HasPrefix(replay, "late|") {
+		c10LateCleanup(o, "replay", strings.TrimPrefix(replay, "late|"))
+		return
+	}
+	if replay == "" {
+		for i, m := range []string{"fast", "try", "over"} {
+			c10LateCleanup(o, fmt.Sprintf("late%d", i), m)
+		}
+	}
 	if replay != "" {
 		raw := strings.HasPrefix(replay, "raw|")
 		cs := parseC10(strings.SplitN(replay, "|", 2)[1])
